@@ -328,8 +328,8 @@ Next == /\ IF Replay THEN (IF InternalEnabled THEN Internal ELSE (GateStep \/ Fi
            ELSE (Internal \/ GateStep)
         /\ UNCHANGED <<Policy, Cap>>
 
-EvalNext == EHead \/ EAdvance \/ EWake \/ EPost \/ EReset \/ EPop \/ ERemark \/ EClose \/ EQStop \/ EQuiesce
-ProdNext(p) == PCall(p) \/ PEnter(p) \/ PCheck(p) \/ PSend(p) \/ PUnblock(p) \/ PMark(p) \/ PLeave(p) \/ PRet(p)
+EvalNext == (EHead \/ EAdvance \/ EWake \/ EPost \/ EReset \/ EPop \/ ERemark \/ EClose \/ EQStop \/ EQuiesce) /\ UNCHANGED <<Policy, Cap>>
+ProdNext(p) == (PCall(p) \/ PEnter(p) \/ PCheck(p) \/ PSend(p) \/ PUnblock(p) \/ PMark(p) \/ PLeave(p) \/ PRet(p)) /\ UNCHANGED <<Policy, Cap>>
 Spec == Init /\ [][Next]_vars
 FairSpec == Init /\ [][Next]_vars /\ WF_vars(EvalNext) /\ \A p \in Producers : WF_vars(ProdNext(p))
 
